@@ -606,6 +606,10 @@ def run_attr(w, acc):
                 o = Out("wrong", "attr copy: not a variant", show(t), show(c))
             elif set(U.term_vars(c)) & set(U.term_vars(t0)):
                 o = Out("wrong", "attr copy: shares a variable", "fresh", show(("t", t0, c)))
+            elif unlist(sol.get("CVs"))[1] != NIL or unlist(sol.get("CVs"))[0] != U.term_vars(c):
+                # term_variables/2 of the copy: each variable once, in order of first occurrence
+                # (a copied attributed variable is reached through references of two kinds)
+                o = Out("wrong", "attr copy: term_variables of the copy", show(mklist(U.term_vars(c))), show(sol.get("CVs")))
             elif sol.get("St") != 1:
                 o = Out("wrong", "attr copy: constraint on the original lost", "1", str(sol.get("St")))
             elif arity == 3 and unlist(sol.get("Gs"))[1] != NIL:
